@@ -25,4 +25,14 @@ Section NpOps.
   Definition cumsumA (l : list A) : list A := cumsumA_from n0 l.
   (* m.diagonal() *)
   Definition np_diagonal (m : list (list A)) : list A := map (fun ir => nth (fst ir) (snd ir) n0) (combine (seq 0 (length m)) m).
+  (* ---- utils.zmm: zero mask out the rows / the column not kept, applying fn to what is kept ---- *)
+  Definition ncols (m : list (list A)) : nat := match m with [] => 0%nat | r :: _ => length r end.
+  (* x[a:a+r, :]  (keep = range(a, a+r)) *)
+  Definition get_rows (a r : nat) (m : list (list A)) : list (list A) := firstn r (skipn a m).
+  (* m[a:a+len(blk), :] = blk *)
+  Definition set_rows (a : nat) (blk m : list (list A)) : list (list A) := firstn a m ++ blk ++ skipn (a + length blk) m.
+  (* x[:, k] and m[:, k] = v *)
+  Definition get_col (k : nat) (m : list (list A)) : list A := map (fun r => nth k r n0) m.
+  Definition set_col (k : nat) (v : list A) (m : list (list A)) : list (list A) :=
+    map (fun ir => upd (snd ir) k (nth (fst ir) v n0)) (combine (seq 0 (length m)) m).
 End NpOps.
